@@ -215,9 +215,13 @@ class C29(Prop):
             return 'session-' + str(user_id)
         a.insert_new_user, a.create_session = insert_new_user, create_session
 
-        async def no_user(request):
+        async def session_user(request):
+            # the browser's own session: an already signed-in user when the case says so
+            if self.flow_env.get('signed_in'):
+                return {'id': 7, 'username': 'erin', 'login_id': 'erin@org.example', 'state': 'active', 'is_developer': 0,
+                        'is_service_account': 0, 'namespace_name': 'default', 'hail_credentials_secret_name': 'x', 'tokens_secret_name': 'y'}
             return None
-        a.auth._fetch_userdata = no_user
+        a.auth._fetch_userdata = session_user
         prop = self
 
         class DB:
@@ -251,7 +255,8 @@ class C29(Prop):
         from urllib.parse import quote
         a, web = self.auth, self.web
         a.deploy_config = self._cfg(c)
-        self.flow_env = {'account': c.get('account', 'none'), 'signup_ok': bool(c.get('signup_ok', True)), 'inserted': None}
+        self.flow_env = {'account': c.get('account', 'none'), 'signup_ok': bool(c.get('signup_ok', True)), 'inserted': None,
+                         'signed_in': bool(c.get('signed_in'))}
         step, nxt = c['step'], c['next']
         sess = self.session_store.setdefault('s', {})
         sess.clear()
@@ -328,7 +333,7 @@ class C29(Prop):
         hosts = self.hail_hosts(c)
         if d[0] == 'host' and d[2] in hosts:
             return None
-        return (f'flow-foreign-redirect: /{"oauth2callback" if c["step"] == "callback" else c["step"]} (session caller {c.get("caller")!r}, account '
+        return (f'flow-foreign-redirect: /{"oauth2callback" if c["step"] == "callback" else c["step"]} ({"already signed in, " if c.get("signed_in") else ""}session caller {c.get("caller")!r}, account '
                 f'{c.get("account")!r}, next {c["next"]!r}) answered {status} Location {loc!r}: the browser ends at {d}, not on one of {hosts}')
 
     def _flow_cases(self, rng):
@@ -341,8 +346,11 @@ class C29(Prop):
                 if nxt in fixed:
                     continue      # the redirect could not be told apart from the handler's own fixed targets
                 base = {'kind': 'flow', 'domain': domain, 'base_path': bp, 'next': nxt}
-                yield {**base, 'step': 'login'}
-                yield {**base, 'step': 'signup'}
+                for signed_in in (False, True):      # also for a browser that already has a valid session
+                    yield {**base, 'step': 'login', 'signed_in': signed_in}
+                    yield {**base, 'step': 'signup', 'signed_in': signed_in}
+                yield {**base, 'step': 'callback', 'caller': 'login', 'account': 'active', 'signed_in': True}
+                yield {**base, 'step': 'creating', 'account': 'active', 'signed_in': True}
                 for caller in ('login', 'signup'):
                     for account in ('none', 'creating', 'active', 'inactive', 'deleting', 'deleted'):
                         yield {**base, 'step': 'callback', 'caller': caller, 'account': account}
